@@ -66,6 +66,11 @@ EXTEND = {
                                      "a loop that applies the requests of one wake-up late or only the last of them loses 'an ignored event leaves the repeat state unchanged' "
                                      "although Mapper::step returns the right request (theorems C11_schedule, C11_cancel_on_key_event on the model's side)"],
                          "explanation": "Further engine loop (clauses C11.schedule, C11.only_then): the loop acts on every step's repeat request at once"}),
+    "C11": {"engines": ["wire"], "clauses": ["C12.switch_reader"],
+            "trusted": ["wire engine as a further engine of C11, clause C12.switch_reader: 'for as long as no further key event or tablet-mode change arrives' - a switch reader that reports "
+                        "a record of ANOTHER switch (lid, headphone, dock) as a tablet-mode change cancels a running repeat although nothing of the kind arrived; the real TabletModeSwitchReader "
+                        "on generated record streams against the extracted TabletWire.check_switch_reader (theorem C12_switch_reader_exact on the model's side)"],
+            "explanation": "Further engine wire (clause C12.switch_reader): only tablet-mode records are tablet-mode changes"},
     "C12": merge(dev()),
     "C19": merge(dev(), SEND),
 }
